@@ -134,7 +134,7 @@ class VSock(VFd):
       raise BlockingIOError(11, "Resource temporarily unavailable")
     d = bytes(self.inbox[:n])
     del self.inbox[:n]
-    self._rt.log.append(("srecv", self.idx, now, d.hex()))
+    self._rt.emit(("srecv", self.idx, now, d.hex()))
     return d
 
   def send(self, data, flags=0):
@@ -142,10 +142,10 @@ class VSock(VFd):
     outcome = self.sends.pop(0) if self.sends else "all"
     marker = data[0] if data else None
     if outcome == "eagain":
-      self._rt.log.append(("ssend", self.idx, now, marker, len(data), "eagain"))
+      self._rt.emit(("ssend", self.idx, now, marker, len(data), "eagain"))
       raise BlockingIOError(11, "Resource temporarily unavailable")
     k = len(data) if outcome == "all" else min(int(outcome), len(data))
-    self._rt.log.append(("ssend", self.idx, now, marker, len(data), k))
+    self._rt.emit(("ssend", self.idx, now, marker, len(data), k))
     return k
 
 
@@ -284,22 +284,26 @@ class Run(object):
   # ------------------------------------------------------------------ flag
   def _enter(self, tid):
     if self.current is not None:
-      self.log.append(("overlap", self.current, tid, self.clock.now))
+      self.emit(("overlap", self.current, tid, self.clock.now))
     self.current = tid
 
   def _leave(self, tid):
     self.current = None
 
+  ds = None
+
   def _begin(self, tid, step, pc, recv):
     self._enter(tid)
+    if self.ds is not None and threading.current_thread() is not self.sched._thread:
+      self.emit(("overlap", "thread:%s" % threading.current_thread().name, tid, self.clock.now))
     prev = self.cur_req.pop(tid, None)
     self.due.pop(tid, None)
     if prev is not None and prev["op"] == "acquire" and recv is True:
       self.holder[prev["lock"]] = tid
-    self.log.append(("step", tid, step, pc, self.clock.now, recv))
+    self.emit(("step", tid, step, pc, self.clock.now, recv))
 
   def _end(self, tid, step, how):
-    self.log.append(("end", tid, step, self.clock.now, how))
+    self.emit(("end", tid, step, self.clock.now, how))
 
   # ------------------------------------------------------------------ the interpreter
   def body(self, tid, prog, sub=None):
@@ -352,7 +356,7 @@ class Run(object):
         self._leave(tid)
       if final:
         yield yv
-        self.log.append(("step", tid, step + 1, pc, self.clock.now, {"other": "resumed-after-return"}))
+        self.emit(("step", tid, step + 1, pc, self.clock.now, {"other": "resumed-after-return"}))
         return
       try:
         got = yield yv
@@ -504,7 +508,7 @@ class Run(object):
         yv = 0
     elif k == "quit":
       yv = R.Exit()
-      self.log.append(("quit", tid, now))
+      self.emit(("quit", tid, now))
       self.stopped = "quit-op"
     else:
       # recv/send without sockets, or an unknown op: plain reschedule
@@ -513,21 +517,21 @@ class Run(object):
     self.cur_req[tid] = eff
     if due is not None:
       self.due[tid] = due
-    self.log.append(("req", tid, step, pc, now, eff))
+    self.emit(("req", tid, step, pc, now, eff))
     return yv
 
   def _action(self, tid, step, op):
     k = op["op"]
     now = self.clock.now
     if k == "busy":
-      self.clock.now = now + op["d"]
-      self.log.append(("act", tid, step, now, "busy", op["d"], True))
+      self._busy_to(now + op["d"])
+      self.emit(("act", tid, step, now, "busy", op["d"], True))
     elif k == "wake":
       tt = self.tasks[op.get("task", 0) % len(self.tasks)]
       ttid = tt.tid
       cur = self.cur_req.get(ttid)
       ok = (ttid != tid and cur is not None and cur["op"] == "block" and not self.woken.get(ttid))
-      self.log.append(("act", tid, step, now, "wake", ttid, bool(ok)))
+      self.emit(("act", tid, step, now, "wake", ttid, bool(ok)))
       if ok:
         self.woken[ttid] = True
         self.sched.schedule(tt)
@@ -535,14 +539,14 @@ class Run(object):
       nt = len(self.case.get("timers", []))
       i = op.get("timer", 0) % nt if nt else None
       ok = i is not None and i in self.timers and i not in self.tcancelled
-      self.log.append(("act", tid, step, now, "cancel", i, bool(ok)))
+      self.emit(("act", tid, step, now, "cancel", i, bool(ok)))
       if ok:
         self._cancel(i)
     elif k == "mktimer":
       nt = len(self.case.get("timers", []))
       i = op.get("timer", 0) % nt if nt else None
       ok = i is not None and i not in self.timers and self.case["timers"][i].get("create") == "task"
-      self.log.append(("act", tid, step, now, "mktimer", i, bool(ok)))
+      self.emit(("act", tid, step, now, "mktimer", i, bool(ok)))
       if ok:
         self._mk_timer(i)
 
@@ -550,7 +554,7 @@ class Run(object):
   def _cancel(self, i):
     self.tcancelled.add(i)
     self.tdue.pop(i, None)
-    self.log.append(("tcancel", i, self.clock.now))
+    self.emit(("tcancel", i, self.clock.now))
     self.timers[i].cancel()
 
   def _mk_timer(self, i):
@@ -559,7 +563,7 @@ class Run(object):
     now = self.clock.now
     t = spec["t"]
     self.fires[i] = 0
-    self.log.append(("tnew", i, now))
+    self.emit(("tnew", i, now))
     self.tdue[i] = now + t
     kw = {}
     if spec.get("explicit_sched", True):
@@ -579,12 +583,12 @@ class Run(object):
       rets = spec.get("rets", [])
       ret = rets[k] if k < len(rets) else None
       now = self.clock.now
-      self.log.append(("fire", i, k, now, ret))
+      self.emit(("fire", i, k, now, ret))
       cont = bool(spec.get("recurring")) and i not in self.tcancelled
       if ret is False and spec.get("self_stop", True):
         cont = False
       if spec.get("busy"):
-        self.clock.now = now + spec["busy"]
+        self._busy_to(now + spec["busy"])
       if ret == "cancel":
         if i not in self.tcancelled:
           self._cancel(i)
@@ -613,7 +617,7 @@ class Run(object):
   def _stop(self, why):
     if self.stopped is None:
       self.stopped = why
-    self.log.append(("stop", self.clock.now, why))
+    self.emit(("stop", self.clock.now, why))
     self.sched.quit()
 
   def _hub_pending(self):
@@ -638,7 +642,7 @@ class Run(object):
     ro = [o for o in robjs if self._r(o, now)]
     wo = [o for o in wobjs if self._w(o, now)]
     if ro or wo:
-      self.log.append(("sel", now, now, "ready"))
+      self.emit(("sel", now, now, "ready"))
       return ro, wo
     nxt = None
     if timeout is not None and timeout >= 0:
@@ -658,14 +662,14 @@ class Run(object):
       nxt = io
     model_due = any(d > now for d in self.due.values()) or any(d > now for d in self.tdue.values())
     if nxt is None or not (io is not None or model_due or self._hub_pending()):
-      self.log.append(("sel", now, now, "quiesce"))
+      self.emit(("sel", now, now, "quiesce"))
       self._stop("quiesce")
       return [], []
     if nxt > self.H:
-      self.log.append(("sel", now, now, "horizon"))
+      self.emit(("sel", now, now, "horizon"))
       self._stop("horizon")
       return [], []
-    self.log.append(("sel", now, nxt, "advance"))
+    self.emit(("sel", now, nxt, "advance"))
     clock.now = nxt
     ro = [o for o in robjs if self._r(o, nxt)]
     wo = [o for o in wobjs if self._w(o, nxt)]
@@ -675,6 +679,9 @@ class Run(object):
   def _r(o, now):
     if isinstance(o, VPinger):
       return o.count > 0
+    f = getattr(o, "v_readable", None)     # detsched's pinger
+    if f is not None:
+      return bool(f())
     f = getattr(o, "readable", None)
     return bool(f(now)) if f else False
 
@@ -696,140 +703,169 @@ class Run(object):
     return v
 
   # ------------------------------------------------------------------ build & run
+  # ---- pieces shared by the hub modes
+  def _setup(self, sched):
+    """Instrument a fresh scheduler: ready-queue counter, _random hook, fake descriptors, select function,
+    cycle wrapper, task objects."""
+    R = self.R
+    case = self.case
+    self.sched = sched
+    self.hub = hub = sched._selectHub
+    if not isinstance(sched._ready, deque):
+      raise HarnessError("Scheduler._ready is not a deque")
+    sched._ready = _CountingDeque(sched._ready)
+    self._rand = [float(x) for x in case.get("rand", [])] + [0.0]
+    sched._random = self.rand
+    self.fds = []
+    for i, f in enumerate(case.get("fds", [])):
+      r_at = None if f.get("r_at") is None else T0 + f["r_at"]
+      w_at = None if f.get("w_at") is None else T0 + f["w_at"]
+      self.fds.append(VFd("f%d" % i, 700000 + i, r_at, w_at))
+    self.socks = []
+    for i, s in enumerate(case.get("socks", [])):
+      arr = [[T0 + a[0], bytes([0x41 + ((i * 16 + j) % 26)]) * int(a[1])] for j, a in enumerate(s.get("arrivals", []))]
+      w_at = T0 + s.get("w_at", 0) if s.get("w_at", 0) is not None else None
+      self.socks.append(VSock(self, i, "s%d" % i, 800000 + i, arr, w_at, s.get("sends", [])))
+    self.nmark = 0
+    for o in self.fds + self.socks + [hub._pinger]:
+      self.by_fileno[o.fileno()] = o
+    if case.get("hub") == "epoll":
+      import pox.lib.epoll_select as E
+      self._epoll_mod = E
+      self._saved_sel = E.select
+      E.select = _SelectShim(self)
+      hub._select_func = E.EpollSelect().select
+    else:
+      hub._select_func = self.vselect
+    self.locks = [R.Lock() for _ in range(max(1, int(case.get("locks", 1))))]
+    orig_cycle = sched.cycle
+
+    def cycle():
+      self.ncyc += 1
+      if self.ncyc > self.budget:
+        self._stop("cycle-budget")
+        return False
+      if self.clock.now > self.H:
+        # the ready queue never drained before the horizon (continuous work): stop without judging liveness
+        self._stop("horizon-busy")
+        return False
+      rq = sched._ready
+      self.emit(("cyc", self.ncyc, [[self.tid_of(t), getattr(t, "priority", 1)] for t in list(rq)], rq.nleft))
+      return orig_cycle()
+    sched.cycle = cycle
+    rt = self
+
+    class _Mixin(object):
+      def __hash__(self):
+        return self._idx
+
+      def execute(self):
+        try:
+          return R.Task.execute(self)
+        except StopIteration:
+          raise
+        except BaseException as e:
+          if type(e).__name__ == "DetSchedAbort":
+            raise
+          fr = innermost_repo_frame(e)
+          rt.emit(("xexc", self.tid, type(e).__name__, ("%s:%s" % fr) if fr else "?", str(e)[:200]))
+          raise
+
+    class VTaskSub(_Mixin, R.Task):
+      def __init__(self, idx, tid, prog):
+        self._idx, self.tid, self._prog = idx, tid, prog
+        R.Task.__init__(self, name=tid)
+
+      def run(self):
+        return rt.body(self.tid, self._prog)
+
+    class VTaskTarget(_Mixin, R.Task):
+      def __init__(self, idx, tid, prog):
+        self._idx, self.tid, self._prog = idx, tid, prog
+        R.Task.__init__(self, target=lambda: rt.body(tid, prog), name=tid)
+
+    for i, t in enumerate(case.get("tasks", [])):
+      cls = VTaskTarget if t.get("form") == "target" else VTaskSub
+      self.tasks.append(cls(i, "t%d" % i, t.get("prog", [])))
+
+  def _register_all(self):
+    """Hand tasks and init-time timers to the scheduler in the order the case dictates."""
+    case = self.case
+    order = case.get("order")
+    if not order:
+      order = [["task", i] for i in range(len(self.tasks))] + [["timer", i] for i in range(len(case.get("timers", [])))]
+    seen = set()
+    for kind, i in order:
+      if (kind, i) in seen:
+        continue
+      seen.add((kind, i))
+      if kind == "task" and i < len(self.tasks):
+        t = self.tasks[i]
+        spec = case["tasks"][i]
+        self.emit(("reg", t.tid, self.clock.now))
+        t.start(scheduler=self.sched, priority=spec.get("prio"), fast=bool(spec.get("fast")))
+      elif kind == "timer" and i < len(case.get("timers", [])):
+        if case["timers"][i].get("create", "init") == "init":
+          self._mk_timer(i)
+
+  def emit(self, ev):
+    self.log.append(ev)
+
+  def _busy_to(self, t):
+    self.clock.now = t
+
+  def _note_runexc(self, e, who=None):
+    fr = innermost_repo_frame(e)
+    self.emit(("runexc", type(e).__name__, ("%s:%s" % fr) if fr else "?",
+               ("thread %s: " % who if who else "") + "".join(traceback.format_exception(e))[-1200:]))
+
+  def _run(self, buf):
+    """Inline hub: the scheduler loop runs on the calling thread."""
+    R = self.R
+    VPinger._n = 0
+    self.U.makePinger = VPinger
+    R.time = TimeShim(self.clock)
+    sched = R.Scheduler(isDefaultScheduler=True, startInThread=False, threaded_selecthub=False)
+    self._setup(sched)
+    if self.case.get("sched_thread"):
+      sched._thread = threading.current_thread()
+    with contextlib.redirect_stdout(buf), contextlib.redirect_stderr(buf):
+      self._register_all()
+      try:
+        sched.run()
+      except HarnessError:
+        raise
+      except BaseException as e:
+        self._note_runexc(e)
+    return {"underflows": self.hub._pinger.underflows}
+
   def go(self):
     import pox.lib.util as U
     import pox.lib.recoco.recoco as R
-    case = self.case
-    self.R = R
+    self.R, self.U = R, U
     saved = (U.makePinger, getattr(U, "make_pinger", None), R.time, R.defaultScheduler)
     import logging
     logging.disable(logging.CRITICAL)
-    VPinger._n = 0
-    U.makePinger = VPinger
-    R.time = TimeShim(self.clock)
     R.defaultScheduler = None
     R.nextTaskID = 0
-    E = None
-    saved_sel = None
+    self._saved_sel = None
     buf = io.StringIO()
     try:
-      sched = R.Scheduler(isDefaultScheduler=True, startInThread=False, threaded_selecthub=False)
-      self.sched = sched
-      self.hub = hub = sched._selectHub
-      if not isinstance(sched._ready, deque):
-        raise HarnessError("Scheduler._ready is not a deque")
-      sched._ready = _CountingDeque(sched._ready)
-      self._rand = [float(x) for x in case.get("rand", [])] + [0.0]
-      sched._random = self.rand
-      if case.get("sched_thread"):
-        sched._thread = threading.current_thread()
-      # -- fake descriptors
-      self.fds = []
-      for i, f in enumerate(case.get("fds", [])):
-        r_at = None if f.get("r_at") is None else T0 + f["r_at"]
-        w_at = None if f.get("w_at") is None else T0 + f["w_at"]
-        self.fds.append(VFd("f%d" % i, 700000 + i, r_at, w_at))
-      self.socks = []
-      for i, s in enumerate(case.get("socks", [])):
-        arr = [[T0 + a[0], bytes([0x41 + ((i * 16 + j) % 26)]) * int(a[1])] for j, a in enumerate(s.get("arrivals", []))]
-        w_at = T0 + s.get("w_at", 0) if s.get("w_at", 0) is not None else None
-        self.socks.append(VSock(self, i, "s%d" % i, 800000 + i, arr, w_at, s.get("sends", [])))
-      self.nmark = 0
-      for o in self.fds + self.socks + [hub._pinger]:
-        self.by_fileno[o.fileno()] = o
-      if case.get("hub") == "epoll":
-        import pox.lib.epoll_select as E
-        saved_sel = E.select
-        E.select = _SelectShim(self)
-        hub._select_func = E.EpollSelect().select
-      else:
-        hub._select_func = self.vselect
-      self.locks = [R.Lock() for _ in range(max(1, int(case.get("locks", 1))))]
-      # -- cycle instrumentation
-      orig_cycle = sched.cycle
-
-      def cycle():
-        self.ncyc += 1
-        if self.ncyc > self.budget:
-          self._stop("cycle-budget")
-          return False
-        if self.clock.now > self.H:
-          # the ready queue never drained before the horizon (continuous work): stop without judging liveness
-          self._stop("horizon-busy")
-          return False
-        rq = sched._ready
-        self.log.append(("cyc", self.ncyc, [[self.tid_of(t), getattr(t, "priority", 1)] for t in rq], rq.nleft))
-        return orig_cycle()
-      sched.cycle = cycle
-      # -- tasks
-      rt = self
-
-      class _Mixin(object):
-        def __hash__(self):
-          return self._idx
-
-        def execute(self):
-          try:
-            return R.Task.execute(self)
-          except StopIteration:
-            raise
-          except BaseException as e:
-            fr = innermost_repo_frame(e)
-            rt.log.append(("xexc", self.tid, type(e).__name__, ("%s:%s" % fr) if fr else "?", str(e)[:200]))
-            raise
-
-      class VTaskSub(_Mixin, R.Task):
-        def __init__(self, idx, tid, prog):
-          self._idx, self.tid, self._prog = idx, tid, prog
-          R.Task.__init__(self, name=tid)
-
-        def run(self):
-          return rt.body(self.tid, self._prog)
-
-      class VTaskTarget(_Mixin, R.Task):
-        def __init__(self, idx, tid, prog):
-          self._idx, self.tid, self._prog = idx, tid, prog
-          R.Task.__init__(self, target=lambda: rt.body(tid, prog), name=tid)
-
-      for i, t in enumerate(case.get("tasks", [])):
-        cls = VTaskTarget if t.get("form") == "target" else VTaskSub
-        self.tasks.append(cls(i, "t%d" % i, t.get("prog", [])))
-      order = case.get("order")
-      if not order:
-        order = [["task", i] for i in range(len(self.tasks))] + [["timer", i] for i in range(len(case.get("timers", [])))]
-      seen = set()
-      with contextlib.redirect_stdout(buf), contextlib.redirect_stderr(buf):
-        for kind, i in order:
-          if (kind, i) in seen:
-            continue
-          seen.add((kind, i))
-          if kind == "task" and i < len(self.tasks):
-            t = self.tasks[i]
-            spec = case["tasks"][i]
-            self.log.append(("reg", t.tid, self.clock.now))
-            t.start(scheduler=sched, priority=spec.get("prio"), fast=bool(spec.get("fast")))
-          elif kind == "timer" and i < len(case.get("timers", [])):
-            if case["timers"][i].get("create", "init") == "init":
-              self._mk_timer(i)
-        try:
-          sched.run()
-        except HarnessError:
-          raise
-        except BaseException as e:
-          fr = innermost_repo_frame(e)
-          self.log.append(("runexc", type(e).__name__, ("%s:%s" % fr) if fr else "?",
-                           "".join(traceback.format_exception(e))[-1200:]))
+      extra = self._run(buf)
       self._parse_output(buf.getvalue())
-      self.log.append(("final", {"time": self.clock.now, "stopped": self.stopped,
-                                 "ready": [self.tid_of(t) for t in sched._ready],
-                                 "underflows": hub._pinger.underflows,
-                                 "cycles": self.ncyc, "selects": self.nsel}))
+      fin = {"time": self.clock.now, "stopped": self.stopped,
+             "ready": [self.tid_of(t) for t in list(self.sched._ready)],
+             "cycles": self.ncyc, "selects": self.nsel}
+      fin.update(extra or {})
+      self.log.append(("final", fin))
     finally:
       U.makePinger = saved[0]
+      if saved[1] is not None:
+        U.make_pinger = saved[1]
       R.time = saved[2]
       R.defaultScheduler = None
-      if saved_sel is not None:
-        E.select = saved_sel
+      if self._saved_sel is not None:
+        self._epoll_mod.select = self._saved_sel
       try:
         self.sched._hasQuit = True
       except AttributeError:
@@ -853,7 +889,7 @@ class Run(object):
         if lines[j].strip() and not lines[j].startswith(" "):
           last = lines[j].strip()
         j += 1
-      self.log.append(("killed", _kill_name(m.group(1)), bool(m.group(2)), last[:200]))
+      self.emit(("killed", _kill_name(m.group(1)), bool(m.group(2)), last[:200]))
       i = j
 
 
@@ -870,3 +906,224 @@ def _count_ops(prog):
 
 def run_inline(case):
   return Run(case).go()
+
+
+# ---------------------------------------------------------------------------------------------- threaded hub mode
+
+# recoco functions whose lines are switch points of the thread schedule
+TRACE_FUNCS = [
+  "Scheduler.schedule", "Scheduler.fast_schedule", "Scheduler.run", "Scheduler.cycle", "Scheduler.quit",
+  "BaseTask.start", "ScheduleTask.run",
+  "SelectHub.idle", "SelectHub.break_idle", "SelectHub._threadProc", "SelectHub._select",
+  "SelectHub.registerSelect", "SelectHub.registerTimer", "SelectHub._cycle", "SelectHub._return",
+  "Sleep.execute", "Select.execute", "Recv.execute", "Send.execute", "Again.execute", "AgainTask.run_again",
+  "Timer.start", "Timer.run", "Lock._do_acquire", "Lock._do_release",
+]
+
+
+class _DsClock(object):
+  """The virtual clock of a DetSched seen through the VClock interface (`.now` readable and writable)."""
+
+  def __init__(self, ds):
+    self._ds = ds
+
+  @property
+  def now(self):
+    return self._ds.now
+
+  @now.setter
+  def now(self, v):
+    self._ds.now = float(v)
+
+  def time(self):
+    return self._ds.now
+
+
+class ThreadedRun(Run):
+  """The same program sets with the scheduler loop on its own thread and the select hub on a third one,
+  all three (plus this harness's main thread, which registers the tasks) under pvf.sim.detsched: one thread
+  runs at a time, every traced recoco line and every blocking primitive is a switch point, and who runs next
+  is case["sched"] = {"gaps": [[gap, v], ...], "base": 0|1} (default: the running thread continues, then
+  round robin).  Virtual time passes only when every thread is blocked (or in a 'busy' action); every such
+  jump is logged as ("sel", a, b, "advance"), which is what the oracle's slept-past-due clause judges --
+  so lateness that a schedule causes without time passing is never an alarm.
+
+  Extra log events: ("wedged", thread, site) -- a thread other than main is blocked without any deadline when
+  the run is over; ("deadlock", [(thread, site)...]).
+  """
+
+  def __init__(self, case):
+    Run.__init__(self, case)
+    from . import detsched as D
+    self.D = D
+    sc = case.get("sched") or {}
+    self.ds = None
+    self._sc = sc
+    self._last_t = T0
+    self.budget = 2 * self.budget + 200
+
+  _in_busy = 0
+
+  def _flush_time(self):
+    now = self.clock.now
+    if now > self._last_t:
+      # nothing was logged while the clock moved: every thread was blocked from _last_t to now -- either idle,
+      # or because the scheduler thread was inside a 'busy' action (a step that takes time), which is not judged
+      self.log.append(("sel", self._last_t, now, "busy" if self._in_busy else "advance"))
+      self._last_t = now
+
+  def emit(self, ev):
+    self._flush_time()
+    self.log.append(ev)
+
+  def _busy_to(self, t):
+    """A step that takes virtual time: the scheduler's thread is occupied (blocked in detsched) until t while
+    the other threads may run."""
+    self._flush_time()
+    self._in_busy += 1
+    try:
+      d = t - self.clock.now
+      if d > 0:
+        self.ds.time.sleep(d)
+      self._flush_time()
+    finally:
+      self._in_busy -= 1
+
+  # -- the hub's select: blocks the hub thread in detsched until something is ready or the timeout passed
+  def wait(self, robjs, wobjs, timeout):
+    ds = self.ds
+    self.nsel += 1
+    if self.nsel > self.budget:
+      self._stop("select-budget")
+      return [], []
+    start = ds.now
+    deadline = None if (timeout is None or timeout < 0) else start + timeout
+
+    def ready():
+      now = ds.now
+      return any(self._r(o, now) for o in robjs) or any(self._w(o, now) for o in wobjs)
+    while True:
+      now = ds.now
+      ro = [o for o in robjs if self._r(o, now)]
+      wo = [o for o in wobjs if self._w(o, now)]
+      if ro or wo or (deadline is not None and now >= deadline) or self.sched._hasQuit:
+        break
+      nxt = deadline
+      for o in robjs:
+        f = getattr(o, "next_readable", None)
+        t = f(now) if f else None
+        if t is not None and (nxt is None or t < nxt):
+          nxt = t
+      for o in wobjs:
+        f = getattr(o, "next_writable", None)
+        t = f(now) if f else None
+        if t is not None and (nxt is None or t < nxt):
+          nxt = t
+      ds.block(ready, None if nxt is None else nxt - now, "hub select(%d r, %d w, timeout=%r)" % (len(robjs), len(wobjs), timeout))
+    self.emit(("sel", start, ds.now, "ready" if (ro or wo) else "timeout"))
+    return ro, wo
+
+  def _stop(self, why):
+    if self.stopped is None:
+      self.stopped = why
+    self.emit(("stop", self.clock.now, why))
+    self.sched.quit()
+
+  def _run(self, buf):
+    D, R, U = self.D, self.R, self.U
+    sc = self._sc
+    if isinstance(sc, dict) and sc.get("list") is not None:
+      chooser = D.ListChooser([int(x) for x in sc["list"]])
+    else:
+      chooser = D.GapChooser([[int(g), int(v)] for g, v in (sc.get("gaps") or [])])
+    trace = {}
+    for name in TRACE_FUNCS:
+      o = R
+      try:
+        for part in name.split("."):
+          o = getattr(o, part)
+      except AttributeError:
+        continue
+      trace[o] = None
+
+    def on_abort():
+      try:
+        self.sched._hasQuit = True
+      except AttributeError:
+        pass
+    ds = self.ds = D.DetSched(chooser=chooser, trace=trace, base=int(sc.get("base", 0)), t0=T0, on_abort=on_abort,
+                              max_vtime_span=float(self.case.get("horizon", 16)) + 30.0, watchdog_s=60.0,
+                              max_switch_points=400000)
+    self.clock = _DsClock(ds)
+    extra = {"underflows": 0}
+
+    def main():
+      sched = R.Scheduler(isDefaultScheduler=True, startInThread=False, threaded_selecthub=True)
+      self._setup(sched)
+      sched.runThreaded(daemon=True)
+      self._register_all()
+      why = None
+      while True:
+        ds.wait_quiescent("main: quiescence")
+        now = ds.now
+        if self.stopped is not None or sched._allDone:
+          why = self.stopped or "scheduler-ended"
+          break
+        future = (any(d > now for d in self.due.values()) or any(d > now for d in self.tdue.values())
+                  or self._hub_pending() or len(sched._ready) > 0 or self._in_busy > 0)
+        if not future:
+          for o in self.fds + self.socks:
+            if o.next_readable(now) is not None or o.next_writable(now) is not None:
+              future = True
+              break
+        if not future:
+          why = "quiesce"
+          break
+        if now >= self.H:
+          why = "horizon"
+          break
+        dls = [dl for (name, site, dl) in ds.blocked() if dl is not None and name != "main"]
+        if not dls:
+          why = "stuck"
+          break
+        t = min(min(dls), self.H)
+        ds.time.sleep(t - now)
+      if self.stopped is None:
+        self.stopped = why
+        self.emit(("stop", ds.now, why))
+      for (name, site, dl) in ds.blocked():
+        if dl is None and name != "main":
+          self.emit(("wedged", name, str(site)))
+      extra["pinger_empty_reads"] = getattr(self.hub._pinger, "empty_pongs", 0)
+      ds.freeze()
+      sched.quit()
+      self.hub.break_idle()
+      self.hub._cycle()
+      if sched._thread is not None:
+        sched._thread.join()
+      if self.hub._thread is not None:
+        self.hub._thread.join()
+
+    with ds.patched(R, threading=ds.threading, Thread=ds.Thread, time=ds.time, select=ds.select), \
+         ds.patched(U, makePinger=ds.make_pinger, make_pinger=ds.make_pinger), \
+         contextlib.redirect_stdout(buf), contextlib.redirect_stderr(buf):
+      res = ds.run(main)
+    if res.budget_exceeded:
+      raise HarnessError("C06 threaded: switch-point budget exceeded")
+    for name, e in res.thread_errors:
+      if isinstance(e, HarnessError):
+        raise e
+      self._note_runexc(e, name)
+    if res.deadlock is not None:
+      self.emit(("deadlock", [[n, str(s)] for n, s in res.deadlock]))
+    if res.stalled is not None:
+      self.emit(("deadlock", [[n, str(s)] for n, s in res.stalled]))
+    extra["decisions"] = len(res.decisions)
+    extra["deviations"] = sum(1 for d in res.decisions if d["v"] != 0)
+    extra["preemptions"] = len(res.preemptions)
+    extra["time_advances"] = len(res.time_advances)
+    return extra
+
+
+def run_threaded(case):
+  return ThreadedRun(case).go()
